@@ -49,6 +49,16 @@ const actorP = -1 // the persister (the InsertLogs gate)
 // stalled run is carried on and judged like every other run (and flagged).
 var engWatchdogs int
 
+func engStallLimit() time.Duration {
+	switch {
+	case engWatchdogs >= 12: // … and it is not the machine: a dozen runs stalled (a whole check costs hours otherwise)
+		return 40 * time.Millisecond
+	case engWatchdogs >= 3: // this process has met a protocol the scheduler does not predict: do not burn the full limit every time
+		return 300 * time.Millisecond
+	}
+	return 4 * time.Second
+}
+
 // ------------------------------------------------------------------ store: durable log + folds
 
 type engStore struct {
@@ -287,6 +297,7 @@ type engArrival struct {
 	actor int
 	point string
 	kind  int // 0 parked at a yield, 1 finished, 2 gate arrival
+	gen   int // gate arrival: the commander generation whose runner makes the call
 	logs  []*ledger.ChainedLog
 	resp  J
 }
@@ -805,10 +816,9 @@ func runEngineSchedule(reqs []engReq, funding [][]string, ameta [][]string, plan
 		gen := s.gen
 		st.gate = func(logs []*ledger.ChainedLog) error {
 			ch := s.resumeCh(actorP)
-			s.arrive <- engArrival{actor: actorP, kind: 2, logs: logs}
+			s.arrive <- engArrival{actor: actorP, kind: 2, logs: logs, gen: gen}
 			// a gate call of a dead generation is never resumed
 			err := <-ch
-			_ = gen
 			return err
 		}
 		mon.inner = bus.NewLedgerMonitor(&engPublisher{s: s, st: st}, "l") // a new process has a new monitor
@@ -970,6 +980,12 @@ func runEngineSchedule(reqs []engReq, funding [][]string, ameta [][]string, plan
 			}
 			s.trace = append(s.trace, fin)
 		case 2:
+			if e.gen != s.gen {
+				// the runner of a commander that is gone reaches the store late (nobody predicted the call: it was not waited for
+				// before the restart): it is never answered, and it must not be taken for a call of the present commander
+				s.trace = append(s.trace, J{"late_gate": J{"generation": e.gen, "batch": len(e.logs)}})
+				break
+			}
 			s.parked[actorP] = "gate"
 			s.gateBatch = len(e.logs)
 			s.expectGate--
@@ -993,13 +1009,7 @@ func runEngineSchedule(reqs []engReq, funding [][]string, ameta [][]string, plan
 				s.expect, s.expectGate = 0, 0
 				return
 			}
-			limit := 4 * time.Second
-			if engWatchdogs >= 3 { // this process has met a protocol the scheduler does not predict: do not burn the full limit every time
-				limit = 300 * time.Millisecond
-			}
-			if engWatchdogs >= 12 { // … and it is not the machine: a dozen runs stalled (a whole check costs hours otherwise)
-				limit = 40 * time.Millisecond
-			}
+			limit := engStallLimit()
 			select {
 			case e := <-s.arrive:
 				take(e)
@@ -1307,7 +1317,10 @@ func runEngineSchedule(reqs []engReq, funding [][]string, ameta [][]string, plan
 					// the runner dies: nothing more happens in this generation; treat as crash at the next step
 					plan.Crash = step + 1
 					s.mu.Unlock()
-					s.resumeCh(actorP) <- fmt.Errorf("injected store failure")
+					select {
+					case s.resumeCh(actorP) <- fmt.Errorf("injected store failure"):
+					case <-time.After(engStallLimit()):
+					}
 				} else {
 					n := s.gateBatch
 					s.persisted += n
@@ -1335,15 +1348,30 @@ func runEngineSchedule(reqs []engReq, funding [][]string, ameta [][]string, plan
 					}
 					s.mu.Unlock()
 					before := len(st.logs)
-					s.resumeCh(actorP) <- nil
-					for { // InsertLogs appends right after the gate; wait for it so that reads are well defined
+					answered := true
+					select {
+					case s.resumeCh(actorP) <- nil:
+					case <-time.After(engStallLimit()): // nobody is inside InsertLogs after all
+						answered = false
+					}
+					for t0 := time.Now(); answered; { // InsertLogs appends right after the gate; wait for it so that reads are well defined
 						st.mu.Lock()
 						k := len(st.logs)
 						st.mu.Unlock()
 						if k >= before+n {
 							break
 						}
+						if time.Since(t0) > engStallLimit() {
+							answered = false
+							break
+						}
 						time.Sleep(20 * time.Microsecond)
+					}
+					if !answered { // the scheduler's picture of the store call was wrong: flagged like every other wrong prediction
+						s.mu.Lock()
+						s.trace = append(s.trace, J{"stall": J{"store": "the call answered is not the batch the scheduler saw arrive", "step": step}})
+						s.mu.Unlock()
+						stalls++
 					}
 				}
 			} else {
